@@ -161,7 +161,7 @@ func (fr *Frame) recvAssume(st *State, ch ssa.Value, val Term, elem types.Type) 
 		return
 	}
 	for _, rs := range fr.contract.Recvs {
-		if p, ok := ch.(*ssa.Parameter); !ok || p.Name() != rs.Chan {
+		if chanExprName(ch) != rs.Chan {
 			continue
 		}
 		env := fr.baseEnv(st)
@@ -174,6 +174,36 @@ func (fr *Frame) recvAssume(st *State, ch ssa.Value, val Term, elem types.Type) 
 		st.assume(t)
 		vc.assume("values received from channel " + rs.Chan + " in " + fr.fn.Name() + " satisfy: " + rs.Clause.Src)
 	}
+}
+
+// chanExprName: the source-level name of a channel operand - a parameter (ch), a field reached
+// from one (s.unitsChan), a captured variable (*ch) - or "" when it has none.
+func chanExprName(v ssa.Value) string {
+	switch x := v.(type) {
+	case *ssa.Parameter:
+		return x.Name()
+	case *ssa.FreeVar:
+		return x.Name()
+	case *ssa.UnOp:
+		if x.Op != token.MUL {
+			return ""
+		}
+		switch y := x.X.(type) {
+		case *ssa.FieldAddr:
+			base := chanExprName(y.X)
+			if base == "" {
+				return ""
+			}
+			st, ok := U(U(y.X.Type()).(*types.Pointer).Elem()).(*types.Struct)
+			if !ok {
+				return ""
+			}
+			return base + "." + st.Field(y.Field).Name()
+		case *ssa.FreeVar:
+			return "*" + y.Name()
+		}
+	}
+	return ""
 }
 
 // strOfBytes: string(b) as an uninterpreted function of the slice header. The bytes are assumed
@@ -2084,9 +2114,24 @@ func (fr *Frame) lookupLocal(name string, at *ssa.BasicBlock, st *State, li *loo
 	return SpecVal{T: t, Ty: best.v.Type()}, true
 }
 
+// typesPkgOf: the package a function belongs to (an instance of a generic function has no
+// ssa package of its own: its origin's).
+func typesPkgOf(fn *ssa.Function) *types.Package {
+	if fn.Pkg != nil {
+		return fn.Pkg.Pkg
+	}
+	if o := fn.Origin(); o != nil && o.Pkg != nil {
+		return o.Pkg.Pkg
+	}
+	if obj := fn.Object(); obj != nil {
+		return obj.Pkg()
+	}
+	return nil
+}
+
 // baseEnv: parameters, receiver, free variables; old() refers to the function entry.
 func (fr *Frame) baseEnv(st *State) *SpecEnv {
-	env := &SpecEnv{vc: fr.vc, vars: map[string]SpecVal{}, cur: st, old: fr.entry, pkg: fr.fn.Pkg.Pkg, tparams: map[string]types.Type{}}
+	env := &SpecEnv{vc: fr.vc, vars: map[string]SpecVal{}, cur: st, old: fr.entry, pkg: typesPkgOf(fr.fn), tparams: map[string]types.Type{}}
 	if tps := fr.fn.TypeParams(); tps != nil {
 		for i := 0; i < tps.Len(); i++ {
 			env.tparams[tps.At(i).Obj().Name()] = tps.At(i)
